@@ -262,6 +262,9 @@ func (p *Program) runJobsL(fns []*ssa.Function, lemmas []*Contract, cfg SolverCf
 			q := pf{j: j, o: o, script: buildSingle(j, o, cfg.TimeoutMs, true)}
 			if o.Kind != "pre-sat" && len(j.Facts) > 400 {
 				q.sliced = append(q.sliced, buildSliced(j, o, 5000, 2))
+				if os.Getenv("GOVC_SLICE3") != "" {
+					q.sliced = append(q.sliced, buildSliced(j, o, 20000, 3), buildSliced(j, o, 20000, 4))
+				}
 			}
 			if o.Kind != "pre-sat" {
 				q.nq = buildSingleQ(j, o, cfg.TimeoutMs, false, true)
@@ -284,7 +287,7 @@ func (p *Program) runJobsL(fns []*ssa.Function, lemmas []*Contract, cfg SolverCf
 				tmp := &Obligation{Name: q.o.Name, Kind: q.o.Kind}
 				if cfg.Keep {
 					os.MkdirAll(cfg.Dir, 0o755)
-					os.WriteFile(filepath.Join(cfg.Dir, sanitizeFile(q.o.Name)+".sliced.smt2"), []byte(sl), 0o644)
+					os.WriteFile(filepath.Join(cfg.Dir, sanitizeFile(q.o.Name)+fmt.Sprintf(".sliced%d.smt2", len(sl))), []byte(sl), 0o644)
 				}
 				ctx, cancel := context.WithTimeout(context.Background(), 7*time.Second)
 				out, _ := runSolver(ctx, "z3-new", []string{"-in", "smt.array.extensional=false"}, sl)
@@ -326,10 +329,28 @@ func (p *Program) runJobsL(fns []*ssa.Function, lemmas []*Contract, cfg SolverCf
 						ch <- ans{name, a, time.Since(t0).Seconds()}
 					}(inc)
 				}
-				for k := 0; k < 2; k++ {
-					r := <-ch
-					if r.a == "unsat" {
-						q.o.Status, q.o.Solver, q.o.Secs = "proved", r.name, r.secs
+				// the full portfolio (with the quantified hypotheses) runs at the same time: whichever settles it first
+				pfDone := make(chan *Obligation, 1)
+				go func() {
+					tmp := &Obligation{Name: q.o.Name, Kind: q.o.Kind, Job: q.o.Job, NFact: q.o.NFact, PC: q.o.PC, Goal: q.o.Goal, Pos: q.o.Pos, Note: q.o.Note}
+					portfolioScript(q.j, tmp, q.script, cfg)
+					pfDone <- tmp
+				}()
+				pending := 2
+				var pfRes *Obligation
+				for pending > 0 || pfRes == nil {
+					select {
+					case r := <-ch:
+						pending--
+						if r.a == "unsat" {
+							q.o.Status, q.o.Solver, q.o.Secs = "proved", r.name, r.secs
+						}
+					case pfRes = <-pfDone:
+						if pfRes.Status == "proved" && q.o.Status != "proved" {
+							q.o.Status, q.o.Solver, q.o.Secs = "proved", pfRes.Solver, pfRes.Secs
+						}
+					}
+					if q.o.Status == "proved" {
 						break
 					}
 				}
@@ -337,8 +358,13 @@ func (p *Program) runJobsL(fns []*ssa.Function, lemmas []*Contract, cfg SolverCf
 				if q.o.Status == "proved" {
 					return
 				}
+				if pfRes == nil {
+					pfRes = <-pfDone
+				}
+				q.o.Status, q.o.Solver, q.o.Secs, q.o.Output, q.o.Model = pfRes.Status, pfRes.Solver, pfRes.Secs, pfRes.Output, pfRes.Model
+			} else {
+				portfolioScript(q.j, q.o, q.script, cfg)
 			}
-			portfolioScript(q.j, q.o, q.script, cfg)
 			if q.o.Status == "unknown" && len(q.split) > 0 {
 				// all cases unsat => proved; any case sat => failed with that model
 				all := true
